@@ -250,7 +250,7 @@ def gen_frame(rng, tier, big=False):
         n = 4 * bs
     else:
         n = rng.choice([0, 1, 100, 5000, 20000, 70000, 140000, 200000])
-    n = min(n, 1100000 if tier != "thorough" else 9000000)      # the extracted model costs ~2 us per byte
+    n = min(n, 5000000 if (tier == "thorough" and big) else 1100000)      # the extracted model and judges cost ~10 us per byte
     dk = rng.choice(["n", "n", "d", "c"])
     dlen = rng.choice(DICT_SIZES) if dk != "n" else 0
     if kind == "volatile":
@@ -915,7 +915,7 @@ def oneshot(st, cs, rng, res, which, tier):
     p = gen_prefs(rng, tier)
     fresh = rng.random() < 0.5
     n = rng.choice([0, 1, 100, 65535, 65536, 65537, 70000, 200000, 262144, 262145, 300000]) if tier != "thorough" else \
-        rng.choice([0, 1, 65536, 65537, 262144, 262145, 1048576, 1048577, 3000000, 4194304, 4194305, 5000000])
+        rng.choice([0, 1, 65536, 65537, 262144, 262145, 262145, 1048576, 1048577, 1048577, 4194304, 4194305])
     usecd = (not fresh) and rng.random() < 0.6
     dlen = rng.choice(DICT_SIZES) if usecd else 0
     dkind, dic, X, _ = gen_material(rng, n, dlen, tier)
